@@ -50,6 +50,19 @@ Section C10.
     destruct (compare block spec analysis verify b b); reflexivity.
   Qed.
 
+  (* a raise while the candidate is analysed for the comparison (the first try/except of
+     compare_asm_block_asm_format) or a verdict "not equal" (which is also what a raise inside the
+     comparison of the two specifications is turned into) keeps the original block *)
+  Theorem compare_failure_kept : forall (analysis : block -> res spec) b,
+    analysis (candidate block spec analysis backend b) = Raise ->
+    process block spec analysis backend verify b = b.
+  Proof. intros analysis b H. unfold process, compare. rewrite H. reflexivity. Qed.
+
+  Theorem rejected_kept : forall (analysis : block -> res spec) b so sn,
+    analysis b = Ok so -> analysis (candidate block spec analysis backend b) = Ok sn ->
+    verify so sn = false -> process block spec analysis backend verify b = b.
+  Proof. intros analysis b so sn Ho Hn Hv. unfold process, compare. rewrite Hn, Ho, Hv. reflexivity. Qed.
+
   (* whatever raises, the emitted block is the input block or a candidate on which the analysis
      succeeded for both blocks and the tool's checker answered "equal" *)
   Theorem kept_or_verified : forall (analysis : block -> res spec) b,
@@ -87,6 +100,8 @@ Print Assumptions failing_block_kept.
 Print Assumptions fault_local.
 Print Assumptions backend_failure_kept.
 Print Assumptions kept_or_verified.
+Print Assumptions compare_failure_kept.
+Print Assumptions rejected_kept.
 Print Assumptions backend_fault_local.
 
 (* non-vacuity: the analysis raises on the second block, the back end on the third *)
